@@ -92,6 +92,9 @@ def mutants(argv):
         res.append(r)
         print(f"{r['outcome']:>20}  {r['property']}  {r['mutant']}  {r.get('wall_s', '')}s  replay={r.get('replay_reproduced')}  {r.get('signatures', r.get('detail', ''))}", flush=True)
     path = os.path.join(VERIF, "evidence", "selftest_mutants.json" if "seeded" not in d else "selftest_seeded.json")
+    for i, a in enumerate(argv):
+        if a == "--out":            # several partial runs in parallel write to files of their own; merged afterwards
+            path = argv[i + 1]
     prev = []
     if only and os.path.exists(path):
         prev = [x for x in json.load(open(path))["results"] if x["mutant"] not in {r["mutant"] for r in res}]
